@@ -43,13 +43,19 @@
 //! DESIGN.md §3 C01). The reference state is the projection of the implementation state, so a
 //! divergence is reported on the step that causes it and the search continues.
 
+//!
+//! Soundness round: in the engine-process models "request sent" is OBSERVED on the execution links, not assumed from
+//! the user command: a request the engine refuses to deliver (e.g. a defensive check on the command) was not sent, and
+//! the order's entry must then stay as it was (`request-not-sent-changes-nothing`); see
+//! `out/benign/C01_ok_refuse_live_cid_reuse.patch`.
+
 use super::common::*;
 use crate::core::{Ctx, Outcome, hash_of};
 use crate::explore::bfs::{self, Model, Viol};
 use barter::{
     EngineEvent,
     engine::{Processor, command::Command},
-    execution::AccountStreamEvent,
+    execution::{AccountStreamEvent, request::ExecutionRequest},
 };
 use barter_integration::collection::one_or_many::OneOrMany;
 use barter::engine::state::{
@@ -428,9 +434,13 @@ impl M {
 
     /// Execute `a` on the real implementation rebuilt from `s`; return the per-cid projection after,
     /// plus structural complaints (order under wrong instrument, unknown cid, damaged static fields).
-    fn execute(&self, s: &St, a: &Act) -> (Vec<Option<Proj>>, Vec<String>) {
+    /// Third value (engine-process models only): per cid, whether an open / a cancel request for it was
+    /// DELIVERED to an execution link while the action was processed. There "request sent" is an observation,
+    /// not an assumption: an engine may refuse to send what a user command asks for.
+    fn execute(&self, s: &St, a: &Act) -> (Vec<Option<Proj>>, Vec<String>, Option<Vec<(bool, bool)>>) {
         let mut complaints = Vec::new();
         let mut after: Vec<Option<Proj>> = vec![None; self.n_cids];
+        let mut sent: Option<Vec<(bool, bool)>> = None;
         match self.layer {
             Layer::Orders => {
                 let mut orders: Orders = Orders::default();
@@ -495,9 +505,9 @@ impl M {
                 let mut ep = match self.process {
                     None => Ep::State(Box::new(state)),
                     Some(trading) => {
-                        let (mut engine, _) = build_engine(&self.instruments, trading, &[]);
+                        let (mut engine, links) = build_engine(&self.instruments, trading, &[]);
                         engine.state = EState { trading, ..state };
-                        Ep::Engine(Box::new(engine))
+                        Ep::Engine(Box::new(engine), links)
                     }
                 };
                 let ev = |c: usize, kind: AccountEventKind<ExchangeIndex, AssetIndex, InstrumentIndex>| AccountEvent {
@@ -569,6 +579,28 @@ impl M {
                         }
                     }
                 }
+                // what reached the execution links (engine-process models)
+                if let Ep::Engine(_, links) = &ep {
+                    let mut v = vec![(false, false); self.n_cids];
+                    for (_, tx) in &links.txs {
+                        for r in tx.as_ref().map(|t| t.take()).unwrap_or_default() {
+                            match r {
+                                ExecutionRequest::Open(o) => {
+                                    if let Ok(c) = self.cid_index(&o.key.cid, o.key.instrument) {
+                                        v[c].0 = true;
+                                    }
+                                }
+                                ExecutionRequest::Cancel(o) => {
+                                    if let Ok(c) = self.cid_index(&o.key.cid, o.key.instrument) {
+                                        v[c].1 = true;
+                                    }
+                                }
+                                ExecutionRequest::Shutdown => {}
+                            }
+                        }
+                    }
+                    sent = Some(v);
+                }
                 for (i, (_, inst_state)) in ep.state().instruments.0.iter().enumerate() {
                     for (k, o) in inst_state.orders.0.iter() {
                         match self.cid_index(k, InstrumentIndex(i)) {
@@ -586,7 +618,7 @@ impl M {
                 }
             }
         }
-        (after, complaints)
+        (after, complaints, sent)
     }
 }
 
@@ -596,7 +628,7 @@ enum Ep {
     State(Box<EState>),
     /// `Engine::process`: account items as `EngineEvent::Account(Item)`, requests as user commands
     /// (`Command::SendOpenRequests / SendCancelRequests`, execution links healthy)
-    Engine(Box<SEngine>),
+    Engine(Box<SEngine>, Links),
 }
 impl Ep {
     fn account(&mut self, ev: AccountEvent) {
@@ -604,7 +636,7 @@ impl Ep {
             Ep::State(s) => {
                 let _ = s.update_from_account(&ev);
             }
-            Ep::Engine(e) => {
+            Ep::Engine(e, _) => {
                 let _ = e.process(EngineEvent::Account(AccountStreamEvent::Item(ev)));
             }
         }
@@ -613,7 +645,7 @@ impl Ep {
         match self {
             Ep::State(s) if batch => s.record_in_flight_opens(&reqs),
             Ep::State(s) => s.record_in_flight_open(&reqs[0]),
-            Ep::Engine(e) => {
+            Ep::Engine(e, _) => {
                 let _ = e.process(EngineEvent::Command(Command::SendOpenRequests(OneOrMany::from_iter(reqs))));
             }
         }
@@ -622,7 +654,7 @@ impl Ep {
         match self {
             Ep::State(s) if batch => s.record_in_flight_cancels(&reqs),
             Ep::State(s) => s.record_in_flight_cancel(&reqs[0]),
-            Ep::Engine(e) => {
+            Ep::Engine(e, _) => {
                 let _ = e.process(EngineEvent::Command(Command::SendCancelRequests(OneOrMany::from_iter(reqs))));
             }
         }
@@ -630,7 +662,7 @@ impl Ep {
     fn state(&self) -> &EState {
         match self {
             Ep::State(s) => s,
-            Ep::Engine(e) => &e.state,
+            Ep::Engine(e, _) => &e.state,
         }
     }
 }
@@ -884,7 +916,7 @@ impl Model for M {
         };
         // a panic of the code under test on an input of the quantifier is a violation (reported once
         // per kind of input), not a machinery failure
-        let Ok((after, complaints)) = crate::core::guarded(|| self.execute(s, a)) else {
+        let Ok((after, complaints, sent)) = crate::core::guarded(|| self.execute(s, a)) else {
             let kind = match a {
                 Act::OpenSent(_) | Act::OpenSentMany(_) => "open-sent",
                 Act::CancelSent(_) | Act::CancelSentWithId(_) | Act::CancelSentMany(_) => "cancel-sent",
@@ -926,7 +958,22 @@ impl Model for M {
         for c in 0..self.n_cids {
             match input_of[c] {
                 Some(input) => {
-                    let (rule, allow) = allowed(&s.orders[c], input, &s.cfg[c]);
+                    let (mut rule, mut allow) = allowed(&s.orders[c], input, &s.cfg[c]);
+                    // engine-process models: the input was a user COMMAND to send a request. The statement speaks
+                    // about requests that are SENT ("becomes tracked when a request for it is sent"): if the engine
+                    // did not deliver the request to any execution link (it refused the command's request), no
+                    // request was sent for this order and its entry has to stay as it was.
+                    if let Some(sent) = &sent {
+                        let delivered = match input {
+                            In::OpenSent => sent[c].0,
+                            In::CancelSent | In::CancelSentWithId => sent[c].1,
+                            _ => true,
+                        };
+                        if !delivered {
+                            rule = "request-not-sent-changes-nothing";
+                            allow = vec![s.orders[c]];
+                        }
+                    }
                     if !allow.contains(&after[c]) {
                         let how = match (&after[c], allow.first()) {
                             (Some(g), Some(Some(w))) if g.kind == w.kind => "wrong-held-data".to_string(),
@@ -1208,6 +1255,7 @@ pub fn run(ctx: &Ctx) -> Outcome {
         }),
         assumptions: vec![
             "client order ids are unique per order (OpenSent only offered while the id is untracked)".into(),
+            "engine-process models: 'request sent' is observed on the execution links; a request named by a SendOpenRequests / SendCancelRequests command that the engine does not deliver to a link was not sent, and the order's entry must then stay unchanged".into(),
             "exchange reports of one order follow a consistent timeline: fill level non-decreasing in exchange time (all 10 timelines over three instants +1 s, +1 s + 1 ns, +2.5 s; filled quantity in {0, 0.6 (even ids) / 0.999999999999 (odd ids), 1} of quantity 1); any report may be delivered late, repeatedly, out of order".into(),
             "failed cancels / failed opens are offered with every ConnectivityError and ApiError variant (timeout, exchange offline, socket; order rejected, rate limit, balance insufficient, instrument / asset invalid) except 'order already cancelled / already fully filled', which are not offered (the statement does not distinguish them, an implementation might reasonably)".into(),
             "cancel confirmations are offered stamped with the latest and with the earliest exchange instant (a late confirmation is a confirmation)".into(),
